@@ -101,3 +101,15 @@ Proof.
   split; [apply (linear_extrude_closed_exact pts h ph E C2 C1)|].
   intros Hh Ha. rewrite (linear_extrude_volume pts h ph E C1). nra.
 Qed.
+
+Theorem loft_fanconvex (lower upper : list V2) (h : R) ph : loft lower upper h = Some ph ->
+  fanconv true (rev (enumerate lower)) -> fanconv false (enumerate upper) -> closed_exact (snd ph).
+Proof.
+  intros E F1 F2.
+  assert (Hk : (3 <= length lower)%nat /\ (3 <= length upper)%nat).
+  { unfold loft in E. destruct (negb (Nat.eqb (length lower) (length upper))) eqn:El; [discriminate|]. apply negb_false_iff, Nat.eqb_eq in El.
+    unfold triangulate2d_rev in E. destruct (Nat.ltb_spec 3 (length lower)); [lia|discriminate]. }
+  apply (loft_closed_exact lower upper h ph E).
+  - apply (fanconv_complete true); [exact F1|rewrite rev_length, enumerate_length; lia].
+  - apply (fanconv_complete false); [exact F2|rewrite enumerate_length; lia].
+Qed.
